@@ -578,6 +578,23 @@ def r7(tree, rep, tier):
 
 
 def run(tree, rep, tier):
+    # R8: the verdict of a side that heard from a peer with another code stays WrongPasswordError: Boss._result is written by the verdict
+    # outputs of live states, the constructor and the error exit only - nothing rewrites it while closing (rule instances: C08.R2)
+    from .C08 import r_tables as c08_r2
+    from ..automat_x import Program as _P
+    sub_ = type(rep)(rep.pid, rep.tier, rep.seed)
+    try:
+        c08_r2(_P(tree), sub_)
+    except AnalysisError:
+        pass
+    for o_ in sub_.obligations:
+        if o_["rule"] == "C08.R2" and "_result writer" in o_["instance"]:
+            rep.obligations.append(dict(o_, rule="C01.R8"))
+            rep.evaluations += 1
+    for v_ in sub_.violations:
+        if v_["key"].startswith("C08.R2:_result:writer"):
+            rep.violation("C01.R8", v_["key"].replace("C08.R2", "C01.R8"), v_["what"] + " (a WrongPasswordError verdict can be replaced after the fact)",
+                          v_.get("site"), v_.get("detail"), _count=False)
     from .. import sharedstate
     sharedstate.check(tree, rep, "C01.R0")
     prog = Program(tree)
